@@ -220,6 +220,40 @@ def known_cases():
     return out
 
 
+KNOWN_B = "F-C15-b"
+
+
+def known_replaced_campaign_cases():
+    """deterministic known-finding stream F-C15-b: a campaign definition that a later create_campaign row of the
+    same name replaces is read (sheet, row validators) but never `parse()`d, so what only `CampaignParser.parse`
+    detects — a message event without text, a non-integer offset / delivery hour — goes unnoticed there.  Each
+    case comes with its twin: the same fault in the campaign that survives (must be, and is, detected)."""
+    import random
+
+    wb = W.base_redef(random.Random(0))
+    out = []
+    for what, change in (
+        ("message event without text", {"event_type": "M", "message": "", "flow": ""}),
+        ("offset that is not an integer", {"offset": "soon"}),
+        ("delivery hour that is not an integer", {"delivery_hour": "noon"}),
+    ):
+        w, twin = W.wb_copy(wb), W.wb_copy(wb)
+        w["sheets"]["campA"]["rows"][0].update(change)       # campA: replaced by the later row for campB (same new_name)
+        twin["sheets"]["campB"]["rows"][-1].update(change)   # campB: the definition that survives
+        out.append({"what": what, "wb": w, "twin": twin})
+    return out
+
+
+def known_replaced_campaign_worker(items):
+    out = []
+    for it in items:
+        res, tw = W.run_cli(it["wb"], False), W.run_cli(it["twin"], False)
+        out.append({"what": it["what"], "rc": res["rc"], "file": res["out"] is not None, "reported": problem_reported(res),
+                    "twin_detected": tw["rc"] not in (0, None) and tw["out"] is None and problem_reported(tw),
+                    "observed": slim(res), "twin_observed": slim(tw)})
+    return out
+
+
 def known_worker(items):
     out = []
     for it in items:
@@ -325,6 +359,25 @@ def run(ck: core.Check):
             ck.violation("detected problem (ERROR record): status and output file disagree with each other",
                          {"kind": "fault", "class": "error-level detection", "pattern": it["pattern"], "workbook": it["wb"],
                           "sentinel": False, "observed": r["observed"]})
+
+    # known-finding stream F-C15-b (deterministic): a fault that only CampaignParser.parse() detects, inside a campaign
+    # definition that a later row replaces.  Attribution: trigger (replaced definition) + pattern (status 0, file
+    # written, silent) + counterfactual (the same fault in the surviving definition IS detected).
+    kb = known_replaced_campaign_cases()
+    for it, r in zip(kb, [x for sh in par.pmap(known_replaced_campaign_worker, [[c] for c in kb]) for x in sh]):
+        ck.case(("known-b", it["what"]))
+        ck.count("known-finding stream (replaced campaign)")
+        if not r["twin_detected"]:
+            continue    # the tool does not detect this fault anywhere: not a "detected fault" of C15 (C19's business)
+        if r["rc"] == 0 and r["file"] and not r["reported"]:
+            ck.known(KNOWN_B, "a fault that the tool detects when it parses a campaign (message event without text, offset / delivery "
+                     "hour that is not an integer) goes unnoticed in a campaign definition that a later create_campaign row of "
+                     "the same name replaces (the replaced CampaignParser is never parse()d): status 0 and the output file is written",
+                     {"what": it["what"], "observed": r["observed"], "same fault in the surviving definition": r["twin_observed"]})
+        elif r["rc"] == 0 or r["file"]:
+            ck.violation("fault in a replaced campaign definition (detected in the surviving one): status, report and output file disagree with each other",
+                         {"kind": "fault", "class": "campaign fault in a replaced definition: " + it["what"], "pattern": "",
+                          "workbook": it["wb"], "sentinel": False, "observed": r["observed"]})
 
     cases, strata = build_cases(bases, ck.tier, ck.rng)
     for k, v in strata.items():
